@@ -438,6 +438,10 @@ func run(c *hc.Ctx) error {
 		concurrentReceivers(c, i)
 	}
 
+	// ---- 7. sessions: failing operations mixed with succeeding ones on one codec / connection
+	writeSessions(c, add)
+	readSessions(c, add)
+
 	c.Res.Rule = "sequences of 1–6 payloads per protocol with lengths clustered at 4, 8, 500/504/508/512 (the 127-word abridged switch), 64 KiB and random multiples of 4 (full: also unaligned), last byte biased to exercise all padding lengths, written by the real Write and read back through a reader with PRNG-chosen chunking (random / 1 byte / whole); Write's validity checks on empty, unaligned and oversized payloads; frames of 2^24−16 … 2^24 bytes; header + detection on valid and arbitrary first bytes; 1–8 concurrent senders on one transport.Conn through transport.Listen. Non-trivial = more than one frame or a frame ≥ 508 bytes; distinct = distinct driver line"
 	c.PartialNote("the interleaving of concurrent senders below the granularity of writeMux (Go memory model, net.Conn internals) is not modelled; the lock scope is a regenerated fact and the end-to-end run exercises it")
 	c.PartialNote("frames of 2^24−16 … 2^24 bytes are compared with the model on the bytes around the payload only (a 16 MiB hex line per frame would dominate the run); the round-trip theorem covers them")
